@@ -21,7 +21,9 @@ EXTENDS PWContract, TLC
 CONSTANTS NEnvL,       \* envelopes 1..NEnvL; envelope e owns fock 2e-1 and polarization 2e
           NCus,        \* custom states: subsystems 2*NEnvL+1 .. 2*NEnvL+NCus
           MaxH,        \* handles that may be created
-          MaxSteps
+          MaxSteps,
+          Fault        \* "none", or one of the defects the pinned code had (used to show that the
+                       \* invariants are not vacuous: TLC must find a counterexample for each)
 
 NSubL == 2 * NEnvL + NCus
 SubsL == 1..NSubL
@@ -121,7 +123,9 @@ NewCompositeL(h, E, K, G) ==
          mconts == {cOf[hUid[g]] : g \in G} \cup viaE
          \* the first container is kept, the others are appended to it (deterministic order: least id)
          keep  == IF mconts = {} THEN nCont + 1 ELSE CHOOSE c \in mconts : \A d \in mconts : c <= d
-         others == SetToSeqL(mconts \ {keep})
+         dupHandles == \E g1, g2 \in G : g1 # g2 /\ cOf[hUid[g1]] = cOf[hUid[g2]]
+         others == IF Fault = "dup_on_merge" /\ dupHandles THEN <<keep>> \o SetToSeqL(mconts \ {keep})
+                   ELSE SetToSeqL(mconts \ {keep})
          RECURSIVE Cat(_, _)
          Cat(f, i) == IF i > Len(others) THEN <<>> ELSE f[others[i]] \o Cat(f, i + 1)
          nps   == (IF mconts = {} THEN <<>> ELSE cPS[keep]) \o Cat(cPS, 1)
@@ -132,7 +136,7 @@ NewCompositeL(h, E, K, G) ==
          newO  == UNION {{FockOfE(e), PolOfE(e)} : e \in E} \cup K
          addO  == SetToSeqL(newO \ RngL(oldO))
          envs2 == oldE \o addE
-         r     == RefreshIdx(sIdx, sCE, nps, uid)
+         r     == IF Fault = "no_refresh_on_merge" THEN [idx |-> sIdx, ce |-> sCE] ELSE RefreshIdx(sIdx, sCE, nps, uid)
      IN /\ nUid' = uid
         /\ nCont' = IF mconts = {} THEN nCont + 1 ELSE nCont
         \* every handle of a merged composite now carries the new uid
@@ -219,7 +223,7 @@ CEMeasureL(h, S, sep, destr) ==
             ids  == [i \in 1..Len(keepIdx) |-> psId[c][keepIdx[i]]]
             retired == {e \in EnvsL : destr /\ {FockOfE(e), PolOfE(e)} \cap M # {}}
             idx1 == [s \in SubsL |-> IF s \in M \/ (EnvOfS(s) \in dissolved) THEN <<>> ELSE sIdx[s]]
-            r    == RefreshIdx(idx1, sCE, pss, uid)
+            r    == IF Fault = "refresh_before_remove" THEN RefreshIdx(idx1, sCE, pss0, uid) ELSE RefreshIdx(idx1, sCE, pss, uid)
         IN /\ cPS' = [cPS EXCEPT ![c] = pss] /\ psId' = [psId EXCEPT ![c] = ids]
            /\ eBlock' = [e \in EnvsL |-> IF e \in dissolved THEN <<>> ELSE eBlock[e]]
            /\ sMeas' = [s \in SubsL |-> sMeas[s] \/ s \in D]
